@@ -130,9 +130,28 @@ EXTRA = {
  'C15': 'The same scale families over pair.Seq (chains of pair.Plus, towers, FromSeq over long leaves, multi-million element sequences under the 64 MB stack limit).',
  'C18': 'Large lists: size oscillation around e^7..e^10 and 2^10..2^14 keys and sliding windows whose every new key is the list minimum / maximum, 0.4-0.7 million operations each (4-6 million thorough), Get right after every Put, dump audit at the turning points.',
 }
+EXTRA6 = {
+ 'C01': 'After the sequential rounds every 16th optic is used by 4 goroutines at once, each on its own guarded structure (shared-optic).',
+ 'C02': 'Must-fail derivations through an embedded pointer are preceded, in the same process, by valid derivations with each embedded struct type as the container.',
+ 'C04': 'Every composed optic is also used by 4 goroutines at once, each on its own structure; Join also focuses fields promoted inside the intermediate.',
+ 'C05': 'Every sequential stage also runs over zero-size, string, pointer, map, large-struct and interface element types, with in-place monoids over reference values, and with producer and consumers pausing from a millisecond to an hour of virtual time.',
+ 'C06': 'Failure values include an uncomparable dynamic type; the Emit outage program runs with StdErr as the error reader; element-type and slow-party programs for the sequential stages, New and the sources.',
+ 'C08': 'pipe.New over zero-size, string, pointer, map, large-struct, interface and bool element types, and with a slow producer/receiver.',
+ 'C09': 'fork stages over the same element types; slow workers and consumers.',
+ 'C10': 'Monoids over reference values that accumulate in place (counter object, map), Empty() handing out a fresh accumulator, the monoid value used for two folds, 1-33 workers.',
+ 'C11': 'Emit and Unfold over the element types.',
+ 'C12': 'Join over the element types; one input read by two copiers (passed twice or to two Joins), closed while both drain.',
+ 'C13': 'Idle periods of 0-10 intervals followed by bursts under cancellable, far-deadline, Background, TODO and WithoutCancel contexts; Throttling over the element types.',
+ 'C16': 'A child process starts with 16 goroutines naming 192 fresh pointer/slice shapes and building pipelines at once (cold start; also under the race detector); every sequence node handed to a callback is visited again through Ast.Apply and must reproduce its segment of the trace.',
+ 'C18': 'Key sorts include pointers to records and interface values; tide family (fill to 300-140000 keys, re-index the oldest quarter, drain, repeat) and oscillation around e^11 and 2^16 keys.',
+}
+for _pid, _t in EXTRA6.items():
+    EXTRA[_pid] = EXTRA.get(_pid, '') + ' ' + _t
 for _pid, _t in EXTRA.items():
     TEXT[_pid]['text'] += ' ' + _t
 TEXT['C09']['note'] = 'Fail-fast (Lift) mode is exercised at scale only for closure, no-leak and "errors only for failing elements" (which workers fail first is not determined); the multiset verdict is for Pure and Try modes. Distinct output orders are counted per child process.'
+TEXT['C16']['note'] += ' Nodes handed to callbacks are taken to be visitable ASTs (duct.Ast), whose visit reproduces their part of the trace.'
+TEXT['C04']['note'] += ' An optic value is taken to be usable from several goroutines at once on distinct structures (optics are stateless values).'
 TEXT['C15']['note'] += ' The stack limit of the long-sequence family extrapolates linearly: stack proportional to the skipped elements overflows the default 1 GB limit at a few 10^7 elements.'
 TEXT['C14']['note'] += ' The stack limit of the long-sequence family extrapolates linearly (see C15).'
 
